@@ -40,10 +40,15 @@ def main():
     meta['files'] = files
     crate = files[0].split('/')[0]
     # --- 1. independent confirmation
-    sh(['git', '-C', REPO, 'worktree', 'remove', '--force', SCRATCH])
-    shutil.rmtree(SCRATCH, ignore_errors=True)
-    rc, out = sh(['git', '-C', REPO, 'worktree', 'add', '--detach', SCRATCH, 'HEAD'])
-    assert rc == 0, out
+    keep = os.environ.get('SEEDED_KEEP_SCRATCH') == '1'     # batches: reuse the scratch worktree's build output between changes
+    if keep and os.path.exists(os.path.join(SCRATCH, '.git')):
+        sh(['git', 'checkout', '--detach', '-f', sh(['git', '-C', REPO, 'rev-parse', 'HEAD'])[1].strip()], cwd=SCRATCH)
+        sh(['git', 'clean', '-fd', '-e', 'target'], cwd=SCRATCH)
+    else:
+        sh(['git', '-C', REPO, 'worktree', 'remove', '--force', SCRATCH])
+        shutil.rmtree(SCRATCH, ignore_errors=True)
+        rc, out = sh(['git', '-C', REPO, 'worktree', 'add', '--detach', SCRATCH, 'HEAD'])
+        assert rc == 0, out
     try:
         rc, out = sh(['git', 'apply', patch], cwd=SCRATCH)
         meta['confirmed']['applies'] = rc == 0
@@ -76,8 +81,12 @@ def main():
                 meta['confirmed']['demo_without_change'] = 'passes' if ok else 'FAILS: ' + out[-300:]
                 meta['confirmed']['demo_cmd'] = cmd
     finally:
-        sh(['git', '-C', REPO, 'worktree', 'remove', '--force', SCRATCH])
-        shutil.rmtree(SCRATCH, ignore_errors=True)
+        if keep:
+            sh(['git', 'checkout', '--', '.'], cwd=SCRATCH)
+            sh(['git', 'clean', '-fd', '-e', 'target'], cwd=SCRATCH)
+        else:
+            sh(['git', '-C', REPO, 'worktree', 'remove', '--force', SCRATCH])
+            shutil.rmtree(SCRATCH, ignore_errors=True)
     # --- 2. detection by the checks
     rc, out = sh(['git', '-C', REPO, 'status', '--porcelain'])
     assert out.strip() == '', '/repo is not clean: ' + out
